@@ -4,6 +4,7 @@ package router_address
 import (
 	"github.com/go-i2p/logger"
 	"github.com/samber/oops"
+	"strings"
 
 	"github.com/go-i2p/common/data"
 )
@@ -128,8 +129,13 @@ func parseTransportOptions(ra *RouterAddress, routerData []byte) ([]byte, error)
 		}).Error("error parsing RouterAddress")
 	}
 	ra.TransportOptions = transportOptions
-	if transportOptions == nil && len(errs) > 0 {
-		return remainder, oops.Errorf("error parsing RouterAddress options: %v", errs[0])
+	// NewMapping never returns a nil mapping, so failures can only be recognised from
+	// the error list. The trailing-data warning is expected (the options are followed
+	// by the next address or the rest of the RouterInfo); anything else is fatal.
+	for _, err := range errs {
+		if !strings.Contains(err.Error(), "data exists beyond length of mapping") {
+			return remainder, oops.Errorf("error parsing RouterAddress options: %v", err)
+		}
 	}
 	return remainder, nil
 }
